@@ -37,6 +37,29 @@ def load():
     return out
 
 
+_BASE = {}
+_BASE_LOCK = __import__("threading").Lock()
+
+
+def _keys(stdout):
+    out = set()
+    for ln in stdout.splitlines():
+        ln = ln.strip()
+        if ln.startswith("key="):
+            out.add(ln.split(" witnesses=")[0][4:])
+    return out
+
+
+def baseline(prop, tier, jobs):
+    """Violation keys the check reports on the UNMUTATED tree (ideally none): never credited to a mutant."""
+    with _BASE_LOCK:
+        if prop not in _BASE:
+            r = subprocess.run([os.path.join(VERIF, "check"), prop, "--tier", tier, "--repo", REPO, "--no-evidence", "--jobs", str(jobs)],
+                               capture_output=True, text=True, cwd=VERIF, timeout=3600)
+            _BASE[prop] = _keys(r.stdout)
+        return _BASE[prop]
+
+
 def run_one(m, tier, jobs):
     t0 = time.time()
     d = tempfile.mkdtemp(prefix="vmon-mut-", dir=SCRATCH_ROOT)
@@ -57,10 +80,12 @@ def run_one(m, tier, jobs):
                                capture_output=True, text=True, cwd=VERIF, timeout=3600)
             viol = [ln for ln in r.stdout.splitlines() if ln.startswith("VIOLATION")]
             keys = [ln.strip() for ln in r.stdout.splitlines() if ln.strip().startswith("key=")]
-            fired = r.returncode == 1 and bool(viol)
+            new_keys = _keys(r.stdout) - baseline(prop, tier, jobs)
+            fired = r.returncode == 1 and bool(viol) and bool(new_keys)
+            keys = sorted(new_keys)
             want = prop in m.get("expect", [])
             good = fired == want and r.returncode in (0, 1)
-            res["results"][prop] = {"rc": r.returncode, "fired": fired, "wanted": want, "keys": [k[:160] for k in keys[:4]]}
+            res["results"][prop] = {"rc": r.returncode, "fired": fired, "wanted": want, "new_keys": [k[:160] for k in keys[:4]]}
             if r.returncode == 2:
                 res["results"][prop]["inconclusive"] = [ln for ln in r.stdout.splitlines() if "INCONCLUSIVE" in ln or "WORKER PROBLEM" in ln][:3]
             if not good:
